@@ -346,6 +346,7 @@ def _apply(st, op):
         st.path = w.path('f.' + st.spec['fmt'])
         with open(st.path, 'wb') as fh:
             fh.write(build(st.spec))
+        seams.stamp_file(st.path)
         st.stats['files'] += 1
         f = st.spec['fmt']
         st.stats['by_format'][f] = st.stats['by_format'].get(f, 0) + 1
@@ -774,6 +775,7 @@ def _apply(st, op):
         with open(p2 + '.tmp', 'wb') as fh:
             fh.write(build(sp2))
         os.replace(p2 + '.tmp', p2)
+        seams.stamp_file(p2)
         w.fault('sibling_file_opened')
         res = {}
         for fam in op['reader']:
@@ -811,6 +813,7 @@ def _apply(st, op):
         with open(path + '.tmp', 'wb') as fh:
             fh.write(build(sp2))
         os.replace(path + '.tmp', path)
+        seams.stamp_file(path)
         w.fault('file_replaced_at_same_path')
         st.spec = sp2
         st.r_closed = False
